@@ -188,6 +188,17 @@ func Spawn() *G {
 	return &G{ID: fmt.Sprintf("%s.%d", p.ID, p.nchild), wake: make(chan bool), Daemon: true}
 }
 
+// Go starts f as a managed goroutine from harness code (the instrumented `go` statement of
+// inbucket's own code does the same through Spawn/Start/Exit).
+func Go(f func()) {
+	g := Spawn()
+	go func() {
+		defer Exit(g)
+		Start(g)
+		f()
+	}()
+}
+
 // Start is called first thing in the child goroutine.
 func Start(g *G) {
 	e := Cur()
